@@ -239,7 +239,7 @@ fn strip_trailing_zeros(mut v: Vec<u16>) -> Vec<u16> {
 /// Enumerate every choice sequence within `budget`.  `run` executes the
 /// scenario once (it must call [`choose`] for every nondeterministic decision)
 /// and is called under [`with_prefix`].
-pub fn explore<F>(budget: Budget, limits: Limits, run: F) -> Stats
+pub fn explore<F>(budget: Budget, limits: Limits, label: &str, run: F) -> Stats
 where
     F: Fn() -> RunOutput + Sync,
 {
@@ -284,7 +284,9 @@ where
                 stop.store(true, Ordering::Relaxed);
                 break;
             }
+            vcommon::watchdog::enter(label, &prefix);
             let (out, trace) = with_prefix(&prefix, &run);
+            vcommon::watchdog::leave();
             if trace.len() < prefix.len() {
                 std::panic::panic_any(Divergence(format!(
                     "replay divergence: execution made {} choices, prefix has {}",
@@ -394,6 +396,7 @@ pub struct Deepening {
 }
 
 pub fn iterative<F>(
+    label: &str,
     ks: &[u32],
     env: u32,
     fault: u32,
@@ -436,6 +439,7 @@ where
                 threads,
                 stop_after_violation_kinds: 0,
             },
+            label,
             &run,
         );
         let dt = t0.elapsed().as_secs_f64();
